@@ -318,6 +318,7 @@ def replay(c):
 
 
 def run(rep):
+    tok.VALIDATE[0] = replay_fn
     L = loader.load()
     rep.hashes = L.hashes
     tier = rep.tier
